@@ -460,7 +460,8 @@ def check(mod, tier, base, nworkers, n_override=None):
     known = load_known()
     agg, problems = run_batch(mod, tier, base, n, nworkers,
                               batch_timeout=getattr(mod, "BATCH_TIMEOUT", {})
-                              .get(tier, 3600))
+                              .get(tier, 3600 if tier == "quick"
+                                   else 6 * 3600))
     extra = None
     if hasattr(mod, "extra_phase"):
         # deterministic, non-seeded sweeps (exhaustive enumerations)
